@@ -223,23 +223,32 @@ Theorem C12_hmac_key_is_secret : forall algs alg secret,
 Proof. exact generate_hmac_key. Qed.
 Print Assumptions C12_hmac_key_is_secret.
 
-(* "The documented variable SSO_CONFIG_{{SERVICE}}_SIGNING_KEY = algorithm:secret configures the key":
-   FALSE of the faithful model in general (known finding C12-K3: the lookup name is built from the
-   service name without lower-casing it, the variable names are lower-cased) ... *)
-Theorem C12_hmac_service_case_refuted :
-  exists w secret, doc_hmac w = HmacOn secret /\
-                   hmac_of_config (w_algs w) (w_service w) (w_environ w) = HmacOff.
-Proof. exists ex_world_k3, s_x. exact doc_hmac_case_witness. Qed.
-Print Assumptions C12_hmac_service_case_refuted.
+(* "The documented variable SSO_CONFIG_{{SERVICE}}_SIGNING_KEY = algorithm:secret configures the key",
+   for EVERY service name, spec and set of accepted algorithms: the variable named after the cleaned
+   service name in upper case is found whatever the case of the service name.
+   (Refuted before /repo c723740 — C12-K3: service `MySvc` got HmacOff; now the proved positive statement.) *)
+Theorem C12_hmac_service_case : forall algs service spec,
+  hmac_of_config algs service [(upper_ascii (clean_ws service ++ signing_key_suffix), spec)] = generate_hmac algs spec.
+Proof. exact hmac_config_found. Qed.
+Print Assumptions C12_hmac_service_case.
 
-(* ... and proved for every world whose (cleaned) service name has no upper-case letter: the documented
-   rule — written independently in Corr_C12_defs.doc_hmac — and the code's rule agree on every
-   environment, every spec string and every set of accepted algorithms. *)
-Theorem C12_hmac_config_documented_partial : forall w : world,
-  lower_ascii (clean_ws (w_service w)) = clean_ws (w_service w) ->
+(* the former witness: service "MySvc", SSO_CONFIG_MYSVC_SIGNING_KEY=sha256:x — key found, both by the
+   documented rule and by the code's *)
+Theorem C12_hmac_service_case_witness :
+  doc_hmac ex_world_k3 = HmacOn s_x /\
+  hmac_of_config (w_algs ex_world_k3) (w_service ex_world_k3) (w_environ ex_world_k3) = HmacOn s_x.
+Proof. exact doc_hmac_case_witness. Qed.
+Print Assumptions C12_hmac_service_case_witness.
+
+(* The documented rule — written independently in Corr_C12_defs.doc_hmac: case-insensitive variable
+   match, first-colon cut — and the code's rule agree for EVERY world: every service name, environment,
+   spec string and set of accepted algorithms. (Before c723740 only for lower-case service names:
+   `C12_hmac_config_documented_partial`; the fix removed the guard. Remaining assumptions are about
+   the model, not the statement: ASCII white space and ASCII case folding.) *)
+Theorem C12_hmac_config_documented : forall w : world,
   doc_hmac w = hmac_of_config (w_algs w) (w_service w) (w_environ w).
 Proof. exact doc_hmac_agrees. Qed.
-Print Assumptions C12_hmac_config_documented_partial.
+Print Assumptions C12_hmac_config_documented.
 
 (* The monitor that Corr_C12_defs.judge applies to the implementation's observations accepts the model's
    own prediction for every input satisfying the guards (so a falsifying observation is either a
@@ -248,7 +257,6 @@ Print Assumptions C12_hmac_config_documented_partial.
 Theorem C12_monitor_accepts_model :
   forall w parsed ident r0 b,
   let c := cfg_of_world w in
-  lower_ascii (clean_ws (w_service w)) = clean_ws (w_service w) ->
   has_prefix (r_path r0) [47] = true -> r_fragment r0 = [] -> r_body r0 = Some b ->
   conn_safe all_protected (r_headers (at_sign_time c parsed ident r0)) = true ->
   cl_canonical (at_sign_time c parsed ident r0) = true ->
